@@ -42,12 +42,14 @@ class TS:
 class File:
     def __init__(self, name):
         self.name, self.decls = name, []
+        self.shoot_alias = "shoot"      # local name of the import "github.com/lopolopen/shoot"
 
 
 class Pkg:
     def __init__(self):
         self.files = []          # in go-list order (sorted by name)
         self.dest = []           # TS of the dest package
+        self.others = []         # (path relative to p/, text): existing .go files that are NOT files of the package
         self.features = set()
 
     def all_specs(self, local=True, top=True):
@@ -61,7 +63,7 @@ class Pkg:
                         yield f, t
 
     def consts_of(self, T):
-        return sum(len(d[2]) for f in self.files for d in f.decls if d[0] == "const" and d[1] == T)
+        return sum(len([n for n in d[2] if n != "_"]) for f in self.files for d in f.decls if d[0] == "const" and d[1] == T)
 
 
 # ---------------------------------------------------------------- Coq syntax
@@ -84,13 +86,16 @@ def coq_decl(d):
         return "DConst %s %s" % (cs(d[1]), clist(cs(n) for n in d[2]))
     if d[0] == "func":
         return "DFunc " + clist(t.coq() for t in d[2])
+    if d[0] == "rawconst":       # `const N = T(1)`: no type identifier in the spec, invisible to shoot
+        return 'DComment ""'
     return "DComment " + cs(d[1])
 
 
 def coq_pkg(p):
     files = clist("{| f_name := %s; f_decls := %s |}" % (cs(f.name), clist(coq_decl(d) for d in f.decls))
                   for f in p.files)
-    return "{| p_files := %s; p_dest := %s |}" % (files, clist(t.coq() for t in p.dest))
+    return "{| p_files := %s; p_dest := %s; p_others := %s |}" % (files, clist(t.coq() for t in p.dest),
+                                                                  clist(cs(n) for n, _ in p.others))
 
 
 # ------------------------------------------------------------------ Go text
@@ -148,10 +153,11 @@ def render_file(pkgname, f):
         if d[0] == "type":
             if any(t.rhs == "iface_rest" for t in d[1]):
                 uses_rest = True
+            q = f.shoot_alias + ".RestClient"
             if len(d[1]) == 1 and not d[3]:
-                body.append("type " + d[1][0].go + "\n")
+                body.append("type " + d[1][0].go.replace("shoot.RestClient", q) + "\n")
             else:
-                inner = "\n\n".join("\t" + t.go.replace("\n", "\n\t") for t in d[1])
+                inner = "\n\n".join("\t" + t.go.replace("shoot.RestClient", q).replace("\n", "\n\t") for t in d[1])
                 body.append("type (\n" + inner + "\n)\n")
         elif d[0] == "const":
             ty, names, strconst = d[1], d[2], d[3]
@@ -162,6 +168,8 @@ def render_file(pkgname, f):
             else:
                 lines = "\n".join(("\t%s %s = iota" % (n, ty)) if i == 0 else "\t" + n for i, n in enumerate(names))
             body.append("const (\n" + lines + "\n)\n")
+        elif d[0] == "rawconst":
+            body.append(d[1] + "\n")
         elif d[0] == "func":
             inner = ""
             for t in d[2]:
@@ -171,7 +179,8 @@ def render_file(pkgname, f):
             body.append(d[1] + "\n")
     head = "package %s\n\n" % pkgname
     if uses_rest:
-        head += 'import (\n\t"context"\n\t"net/http"\n\n\t"github.com/lopolopen/shoot"\n)\n\n'
+        imp = '"github.com/lopolopen/shoot"' if f.shoot_alias == "shoot" else f.shoot_alias + ' "github.com/lopolopen/shoot"'
+        head += 'import (\n\t"context"\n\t"net/http"\n\n\t' + imp + '\n)\n\n'
     return head + "\n".join(body)
 
 
@@ -184,6 +193,8 @@ def render_go(p, pkgname="p", destname="dest"):
     for t in p.dest:
         dst += "type " + t.go + "\n\n"
     files["dest/d.go"] = dst
+    for rel, txt in p.others:
+        files["p/" + rel] = txt
     return files
 
 
@@ -198,6 +209,9 @@ def gen_pkg(rng, with_rest=False, want_local=None, want_collision=False):
         names = list(dict.fromkeys(names))
     names = sorted(names)                             # go list order = sorted by file name
     p.files = [File(n) for n in names]
+    for f in p.files:
+        if rng.random() < 0.3:
+            f.shoot_alias = rng.choice(["sh", "shootpkg"])   # renamed import of the shoot package
     pool_e, pool_u, pool__ = list(EXPORTED), list(UNEXPORTED), list(UNDERSCORED)
     rng.shuffle(pool_e), rng.shuffle(pool_u), rng.shuffle(pool__)
 
@@ -216,6 +230,7 @@ def gen_pkg(rng, with_rest=False, want_local=None, want_collision=False):
         kinds += ["rest", "rest", "rest", "urest", "_rest", "iface_universe"]
     if want_local is None:
         want_local = rng.random() < 0.15
+    raw_after = []
     pending_consts = []       # (tyname, names, strconst) to be placed in another file
     nfunc = [0]
     used_prefix = set()
@@ -272,9 +287,17 @@ def gen_pkg(rng, with_rest=False, want_local=None, want_collision=False):
                 t = mk_int(rng, fresh()); ints.append(t); specs = [t]
                 pre = cprefix(t.name, "V")
                 cn = ["%s%d" % (pre, i) for i in range(rng.randint(1, 4))]
+                r_ = rng.random()
+                if r_ < 0.15:
+                    cn.insert(rng.randint(0, len(cn)), "_")           # a blank constant among real ones
+                elif r_ < 0.25:
+                    cn = ["_"] * rng.randint(1, 2)                    # only blank constants: no constant for shoot
+                    t.kind = "enum_blank_only"
                 pending_consts.append((f, t.name, cn, False, k == "enum_other_file"))
             elif k == "int_noconst":
                 t = mk_int(rng, fresh()); t.kind = "int_noconst"; ints.append(t); specs = [t]
+                if rng.random() < 0.35:       # a constant of the type that is no typed const spec: `const N = T(1)`
+                    raw_after.append(("rawconst", "const %s0 = %s(1)" % (cprefix(t.name, "R"), t.name)))
             elif k == "int_of_named":
                 if not ints:
                     continue
@@ -309,6 +332,8 @@ def gen_pkg(rng, with_rest=False, want_local=None, want_collision=False):
                     ints.append(extra)
                 specs = specs + [extra] if rng.random() < 0.5 else [extra] + specs
             f.decls.append(("type", specs, None, grouped))
+            f.decls.extend(raw_after)
+            del raw_after[:]
         if want_local and rng.random() < 0.6:
             nfunc[0] += 1
             loc = []
@@ -337,6 +362,22 @@ def gen_pkg(rng, with_rest=False, want_local=None, want_collision=False):
     for (f, ty, cn, strconst, elsewhere) in pending_consts:
         tgt = rng.choice(p.files) if elsewhere else f
         tgt.decls.append(("const", ty, cn, strconst))
+    # a declaration-free file of the package (doc.go / gen.go), a home for //go:generate lines
+    if rng.random() < 0.25:
+        n = rng.choice(["doc.go", "gen.go", "aaa.go", "zzz.go"])
+        if n not in [f.name for f in p.files]:
+            p.files.append(File(n))
+            p.files.sort(key=lambda f: f.name)
+            p.features.add("declfree")
+    # existing .go files that are not files of the package
+    if rng.random() < 0.35:
+        cands = [("x_test.go", "package p\n\ntype InTest struct {\n\tID int\n}\n"),
+                 ("ignored.go", "//go:build ignore\n\npackage p\n\ntype Ignored struct {\n\tID int\n}\n"),
+                 ("other_windows.go", "package p\n\ntype OnWindows struct {\n\tID int\n}\n"),
+                 ("_under.go", "package p\n\ntype Under struct {\n\tID int\n}\n"),
+                 ("sub/a.go", "package sub\n\ntype SubT struct {\n\tID int\n}\n")]
+        p.others = rng.sample(cands, rng.randint(1, 3))
+        p.features.add("others")
     # the destination package of `shoot map`
     for _, t in p.all_specs(local=False):
         if t.rhs == "struct" and not t.tparams:
@@ -358,9 +399,17 @@ def gen_pkg(rng, with_rest=False, want_local=None, want_collision=False):
 
 def add_generate_line(rng, p, cmdline, f=None, variant=None):
     """put a //go:generate line for [cmdline] into a file of the skeleton"""
-    f = f or rng.choice(p.files)
-    variant = variant or rng.choices(["plain", "plain", "prefixed"], [6, 2, 1])[0]
-    text = "//go:generate " + cmdline if variant == "plain" else "//go:generate go run github.com/x/y " + cmdline
+    free = [x for x in p.files if not x.decls]
+    f = f or (rng.choice(free) if free and rng.random() < 0.5 else rng.choice(p.files))
+    variant = variant or rng.choices(["plain", "prefixed", "block", "block_tail"], [8, 1, 1.5, 0.5])[0]
+    if variant == "plain":
+        text = "//go:generate " + cmdline
+    elif variant == "prefixed":
+        text = "//go:generate go run github.com/x/y " + cmdline
+    elif variant == "block":          # inside a block comment: (?m) lets the regexp match a line of it
+        text = "/*\nsome notes\n//go:generate " + cmdline + "\n*/"
+    else:                             # ... but not when the comment closes on the same line
+        text = "/*\n//go:generate " + cmdline + " */"
     pos = rng.randint(0, len(f.decls))
     f.decls.insert(pos, ("comment", text))
     return f
@@ -408,16 +457,20 @@ def pkg_to_json(p):
                 ds.append(["const", d[1], list(d[2]), d[3]])
             elif d[0] == "func":
                 ds.append(["func", d[1], [ts_to_json(t) for t in d[2]]])
+            elif d[0] == "rawconst":
+                ds.append(["rawconst", d[1]])
             else:
                 ds.append(["comment", d[1]])
-        files.append({"name": f.name, "decls": ds})
-    return {"files": files, "dest": [ts_to_json(t) for t in p.dest], "features": sorted(p.features)}
+        files.append({"name": f.name, "decls": ds, "shoot_alias": f.shoot_alias})
+    return {"files": files, "dest": [ts_to_json(t) for t in p.dest], "features": sorted(p.features),
+            "others": [list(x) for x in p.others]}
 
 
 def pkg_from_json(j):
     p = Pkg()
     for fj in j["files"]:
         f = File(fj["name"])
+        f.shoot_alias = fj.get("shoot_alias", "shoot")
         for d in fj["decls"]:
             if d[0] == "type":
                 f.decls.append(("type", [ts_from_json(t) for t in d[1]], None, d[3]))
@@ -425,9 +478,12 @@ def pkg_from_json(j):
                 f.decls.append(("const", d[1], list(d[2]), d[3]))
             elif d[0] == "func":
                 f.decls.append(("func", d[1], [ts_from_json(t) for t in d[2]]))
+            elif d[0] == "rawconst":
+                f.decls.append(("rawconst", d[1]))
             else:
                 f.decls.append(("comment", d[1]))
         p.files.append(f)
     p.dest = [ts_from_json(t) for t in j["dest"]]
     p.features = set(j.get("features", []))
+    p.others = [tuple(x) for x in j.get("others", [])]
     return p
